@@ -14,7 +14,9 @@ Hypotheses that are genuine restrictions of the input (each probed on the real c
 * `hk` (histograms): the rendered bucket keys of one family are pairwise different, i.e. `floatToGoString` is injective
   on the bounds that occur (C13) — otherwise two bounds would be reported under one `le`.
 -/
-import PromVerif.Lemmas.MultiprocessCompose
+import PromVerif.Lemmas.MultiprocessCollect
+import PromVerif.Lemmas.MultiprocessKeys
+import PromVerif.Lemmas.MultiprocessSums
 
 namespace PromVerif.Props.C08
 open PromVerif.Py PromVerif.Generated.Multiprocess
@@ -334,6 +336,250 @@ theorem merged_perm (vo : VOps V) (bo : BOps B) [DecidableEq B] (hcomm : ∀ a b
   unfold bucketContribs
   exact (((contribs_perm fs fs' h mn).filterMap _).filter _).map _
 
+theorem head_typ_perm (bo : BOps B) (fs fs' : List (SFile V)) (h : fs.Perm fs') (hwf : WFInput bo fs) (mn : Str) :
+    typOf fs mn = typOf fs' mn ∧ modeOf fs mn = modeOf fs' mn ∨
+    (typOf fs mn = typOf fs' mn ∧ typOf fs mn ≠ gaugeType) := by
+  have hp := contribs_perm fs fs' h mn
+  unfold typOf modeOf
+  cases h1 : contribs fs mn with
+  | nil =>
+    rw [h1] at hp
+    rw [List.Perm.nil_eq hp]
+    exact Or.inl ⟨rfl, rfl⟩
+  | cons c r =>
+    cases h2 : contribs fs' mn with
+    | nil => rw [h1, h2] at hp; exact absurd hp.symm.nil_eq (by simp)
+    | cons c' r' =>
+      have hc : c ∈ contribs fs mn := h1 ▸ List.mem_cons_self
+      have hc' : c' ∈ contribs fs mn := hp.mem_iff.mpr (h2 ▸ List.mem_cons_self)
+      have m1 := mem_contribs hc
+      have m2 := mem_contribs hc'
+      have ht := hwf.one_type c m1.1 c' m2.1 (m1.2.trans m2.2.symm)
+      simp only [List.head?_cons, Option.map_some, Option.getD_some]
+      by_cases hg : c.typ = gaugeType
+      · exact Or.inl ⟨ht.symm, (hwf.one_mode c m1.1 c' m2.1 (m1.2.trans m2.2.symm) hg).symm⟩
+      · exact Or.inr ⟨ht.symm, hg⟩
+
+/-- **value_perm** (task: whole-output equality under permutation of the listing; `_partial`): for a well-formed listing
+    and any permutation of it, the value the spec (hence the collector, by `accumulate_eq_spec_partial`) assigns to EVERY
+    series key of a family is the same, when the family is a counter/summary/other sum-valued type or a `sum`/`livesum`
+    gauge (commutative semigroup), or a `min`/`max` gauge whose contributed values are strictly totally ordered by
+    `lt`.  Not covered (hence `_partial`): histograms — the bucket list is sorted by insertion sort, canonical only for
+    a total order on bounds, not proved; `mostrecent` and `all`, and min/max with ties (`-0.0`/`0.0`, NaN), where the
+    result genuinely depends on the listing order and the property allows any admissible answer. -/
+theorem value_perm_partial (vo : VOps V) (bo : BOps B) [DecidableEq B] (hcomm : ∀ a b, vo.add a b = vo.add b a)
+    (hassoc : ∀ a b c, vo.add (vo.add a b) c = vo.add a (vo.add b c))
+    (hirr : ∀ a, vo.lt a a = false) (htr : ∀ a b c, vo.lt a b = true → vo.lt b c = true → vo.lt a c = true)
+    (fs fs' : List (SFile V)) (h : fs.Perm fs') (hwf : WFInput bo fs) (mn : Str) (k : SKey)
+    (hkind : kindOf (typOf fs mn) (modeOf fs mn) = .plainSum ∨ kindOf (typOf fs mn) (modeOf fs mn) = .gaugeSum ∨
+      ((kindOf (typOf fs mn) (modeOf fs mn) = .gaugeMin ∨ kindOf (typOf fs mn) (modeOf fs mn) = .gaugeMax) ∧
+        ∀ a ∈ valuesFor plainKey (contribs fs mn) k, ∀ b ∈ valuesFor plainKey (contribs fs mn) k, a ≠ b →
+          vo.lt a b = true ∨ vo.lt b a = true)) :
+    value vo bo fs mn k = value vo bo fs' mn k := by
+  have hk : kindOf (typOf fs mn) (modeOf fs mn) = kindOf (typOf fs' mn) (modeOf fs' mn) := by
+    rcases head_typ_perm bo fs fs' h hwf mn with ⟨e1, e2⟩ | ⟨e1, hng⟩
+    · rw [e1, e2]
+    · rw [← e1]
+      unfold kindOf
+      have e : gaugeType = "gauge".toList := by decide
+      rw [if_neg (e ▸ hng), if_neg (e ▸ hng)]
+  have hperm := accumulate_perm_partial vo hcomm hassoc fs fs' h mn k
+  have hp : (valuesFor plainKey (contribs fs mn) k).Perm (valuesFor plainKey (contribs fs' mn) k) := by
+    unfold valuesFor
+    exact ((contribs_perm fs fs' h mn).filter _).map _
+  unfold value
+  simp only
+  rw [← hk]
+  rcases hkind with hk1 | hk1 | ⟨hk1 | hk1, htot⟩ <;> rw [hk1]
+  · exact hperm.1
+  · exact hperm.2.1
+  · simp only [gaugeValue, aggMin]
+    exact aggPick_perm_total vo.lt hirr htr _ _ hp htot
+  · simp only [gaugeValue, aggMax]
+    exact aggPick_perm_total (fun x c => vo.lt c x) hirr (fun a b c h1 h2 => htr c b a h2 h1) _ _ hp
+      (fun a ha b hb hne => (htot a ha b hb hne).symm)
+
+/-! ### the statement about WORKER HISTORIES: writer (C09) composed with reader (C08) -/
+
+open PromVerif.Model.Values in
+/-- bounds reach the collector as parsed `le` texts -/
+theorem bound_is_parsed (bo : BOps B) [DecidableEq B] (cs : List (Contrib V)) (L : Labels) (b : B)
+    (hb : b ∈ boundsOf (bucketContribs bo cs) L) : ∃ t, bo.parse t = some b := by
+  have := (mem_distinct _ _).mp hb
+  obtain ⟨x, hx, rfl⟩ := List.mem_map.mp this
+  obtain ⟨c, _, t, b', _, hp, e⟩ := mem_bucketContribs bo cs x (List.mem_filter.mp hx).1
+  exact ⟨t, by rw [hp, e]⟩
+
+open PromVerif.Model.Values in
+/-- **collect_workers** (`mpCollect (files (runWorkers hs)) = aggregate (perProcessValues hs)`; `_partial`, see below).
+    Take ANY world history from an empty directory: any number of worker generations (`spawn`), each performing any
+    sequence of value-level calls with identity changes at any points (`op`), `mark_process_dead` at any points (`dead`),
+    pids reused at will.  Let `D` be the directory it leaves.  Then the collector, run on the listing of `D`,
+    * succeeds, reports each family once with the help text and type of its contributions, and for every series key the
+      per-mode aggregate `Spec.value` over the contributions (as `accumulate_eq_spec_partial`), where
+    * every contribution is ONE identity's entry of ONE series — `c.key = mmap_key` of a constructed value object `q`, in
+      the file `<prefix of q>_<c.pid>.db` — and its `(value, set-time)` is the fold, over the world's log, of the updates
+      issued UNDER `c.pid` (increments add, sets replace; whichever generation issued them) and of the deaths of `c.pid`
+      (which wipe it iff the file is a live-gauge file).
+    So counters, summaries and histogram cells sum, over all identities dead or alive, everything ever incremented
+    (`worker_sums_partial` below makes the sum explicit); `all` gauges show each identity's own last value; min/max/sum/
+    mostrecent range over the identities' own values; live modes only over identities not marked dead since they wrote.
+    Remaining hypotheses (`_partial`): `hu` — one live value object per (prefix, key) in the acting worker at every point
+    (the real code loses updates otherwise: `C09.two_objects_lose_updates`); `GoodPS.no_pid_label` (known finding F24);
+    `GoodPS.consistent` — one type and gauge mode per metric name; identities free of `_`; `hfmt` — the bound formatter is
+    injective on parsed bounds (C13, `fmt_injective_of_repr`).  Simultaneously running workers are represented by
+    listing each worker's calls contiguously: they have distinct identities, hence touch disjoint files
+    (`C09.writes_only_own_files`) and commute — this commutation is argued, not proved. -/
+theorem collect_workers_partial (vo : VOps V) (bo : BOps B) [DecidableEq B] (PS : List Params) (hPS : GoodPS bo PS)
+    (p0 : Str) (hp0 : '_' ∉ p0) (evs : List (Ev V)) (hev : evsIdOK evs) (hkn : ∀ e ∈ evs, evKnown PS e)
+    (hu : WUniq vo (St.init p0) evs)
+    (hfmt : ∀ t t' b b', bo.parse t = some b → bo.parse t' = some b' → bo.fmt b = bo.fmt b' → b = b') :
+    let D := (wrun vo (St.init p0) evs).disk
+    ∃ out, merge vo bo (listing D) = .ok out ∧
+      out.map (·.name) = families (sfiles D) ∧ (families (sfiles D)).Nodup ∧
+      (∀ om ∈ out, om.doc = helpOf (sfiles D) om.name ∧ om.typ = typOf (sfiles D) om.name ∧
+        ∃ ss, om.samples = convert ss ∧ (AL.keys ss).Nodup ∧
+          ∀ k, AL.get? ss k = value vo bo (sfiles D) om.name k) ∧
+      (∀ c ∈ allContribs (sfiles D), ∃ q ∈ PS, c.typ = q.typ ∧ (c.typ = gaugeType → c.mode = q.mode) ∧
+        c.key = mmapKey q ∧ '_' ∉ c.pid ∧
+        (c.value, c.ts) = (wLog vo (filePrefix q) (mmapKey q) p0 p0 [] evs).foldl
+          (wOwnStep vo (isLiveFileOf c.pid (fileName (filePrefix q) c.pid)) c.pid) (vo.zero, vo.zero)) := by
+  intro D
+  have hw := wrun_diskOK vo PS evs (St.init p0) (bound_init p0) ⟨hp0, hp0⟩
+    ⟨diskOK_nil PS, fun v hv => by cases hv⟩ hev hkn
+  have hdisk : DiskOK PS D := hw.1.disk
+  have hwf := wfinput_sfiles bo PS hPS D hdisk
+  have hk : ∀ mn, typOf (sfiles D) mn = histogramType →
+      (AL.keys (bucketSeries vo bo mn (contribs (sfiles D) mn))).Nodup := by
+    intro mn _
+    apply bucketSeries_keys_nodup
+    intro L _ b hb b' hb' e
+    obtain ⟨t, ht⟩ := bound_is_parsed bo _ L b hb
+    obtain ⟨t', ht'⟩ := bound_is_parsed bo _ L b' hb'
+    exact hfmt t t' b b' ht ht' e
+  obtain ⟨out, h1, h2, h3, h4⟩ := accumulate_eq_spec_partial vo bo (sfiles D) hwf hk
+  refine ⟨out, ?_, h2, h3, h4, ?_⟩
+  · rw [listing_eq PS hPS.good D hdisk]; exact h1
+  · intro c hc
+    obtain ⟨q, hq, e1, e2, e3, e4, e5⟩ := contrib_char PS hPS.good D hdisk c hc
+    refine ⟨q, hq, e1, e2, e3, e4, ?_⟩
+    have := wrun_cell vo (filePrefix q) (mmapKey q) c.pid e4 evs (St.init p0) (inv_init vo p0) ⟨hp0, hp0⟩ hev hu
+    have hcv : cellVal vo (wrun vo (St.init p0) evs).disk (fileName (filePrefix q) c.pid) (mmapKey q) = (c.value, c.ts) := by
+      unfold cellVal
+      rw [← e3]
+      show (cellGet D _ _).getD _ = _
+      rw [e5]; rfl
+    rw [hcv] at this
+    exact this
+
+open PromVerif.Model.Values in
+/-- **worker_sums** (`_partial`, same hypotheses as `collect_workers_partial`): for a counter, summary or histogram
+    value object `q` and ANY selection of keys that singles out `q`'s key among the constructed value objects (e.g. "this
+    sample name and label set of this family", or "this label set and this parsed bucket bound"), the sum the collector
+    forms over the selected contributions — all files, all identities, dead or alive, reused or not — equals the sum of
+    ALL increments ever issued to that series by all worker generations, in a commutative monoid, provided the series
+    is only incremented.  `pids`: any duplicate-free list of `_`-free identities containing those that incremented. -/
+theorem worker_sums_partial (vo : VOps V) (bo : BOps B) (hcomm : ∀ a b, vo.add a b = vo.add b a)
+    (hassoc : ∀ a b c, vo.add (vo.add a b) c = vo.add a (vo.add b c)) (hzero : ∀ a, vo.add vo.zero a = a)
+    (PS : List Params) (hPS : GoodPS bo PS) (p0 : Str) (hp0 : '_' ∉ p0) (evs : List (Ev V)) (hev : evsIdOK evs)
+    (hkn : ∀ e ∈ evs, evKnown PS e) (hu : WUniq vo (St.init p0) evs)
+    (q : Params) (hq : q ∈ PS) (hng : q.typ ≠ gaugeType)
+    (sel : Key → Bool) (hK : sel (mmapKey q) = true)
+    (hsel : ∀ q' ∈ PS, sel (mmapKey q') = true → mmapKey q' = mmapKey q)
+    (pids : List Str) (hnd : pids.Nodup) (hpids : ∀ p ∈ pids, '_' ∉ p)
+    (hinc : ∀ u ∈ wUpds (wLog vo q.typ (mmapKey q) p0 p0 [] evs), ∃ r a, u = Upd.inc r a ∧ r ∈ pids) :
+    aggSum vo (((allContribs (sfiles (wrun vo (St.init p0) evs).disk)).filter (fun c => sel c.key)).map (·.value))
+      = incTotal vo (wUpds (wLog vo q.typ (mmapKey q) p0 p0 [] evs)) := by
+  have hw := wrun_diskOK vo PS evs (St.init p0) (bound_init p0) ⟨hp0, hp0⟩
+    ⟨diskOK_nil PS, fun v hv => by cases hv⟩ hev hkn
+  have hdisk := hw.1.disk
+  have hpre : filePrefix q = q.typ := by unfold filePrefix; rw [if_neg hng]
+  have hgq := hPS.good q hq
+  -- entries with a selected key have q's key, and sit in files of q's prefix only
+  have hentry : ∀ f ∈ (wrun vo (St.init p0) evs).disk, ∀ e ∈ f.2, sel e.1 = true → e.1 = mmapKey q := by
+    intro f hf e he hs
+    obtain ⟨q0, _, pid, _, _, hst⟩ := hdisk.files f hf
+    obtain ⟨q', hq', hk, _⟩ := hst.2 e he
+    rw [hk] at hs ⊢
+    exact hsel q' hq' hs
+  rw [selected_values vo hcomm hzero _ hdisk.names
+    (fun f hf => by obtain ⟨_, _, _, _, _, hst⟩ := hdisk.files f hf; exact hst.1) sel (mmapKey q) hK hentry]
+  have hC : (pids.map (fileName q.typ)).Nodup := by
+    apply nodup_map_on _ _ hnd
+    intro a ha b hb e
+    exact (fileName_inj _ _ _ _ (hpids a ha) (hpids b hb) e).2
+  rw [aggSum_support vo hcomm hassoc hzero _ (pids.map (fileName q.typ)) hdisk.names hC]
+  · rw [List.map_map]
+    exact world_sum vo hcomm hassoc hzero p0 hp0 evs hev hu q.typ (mmapKey q) pids hnd hpids
+      (fun p hp => nonlive_prefix q.typ hgq.typ p p (hpids p hp) (hpids p hp)) hinc
+  · -- a file of the directory that is not `<typ>_<p>.db` for a listed p holds nothing (or zero) under q's key
+    intro fn hfn hnc
+    obtain ⟨f, hf, rfl⟩ := List.mem_map.mp hfn
+    obtain ⟨q0, hq0, pid, hpid, hn, hst⟩ := hdisk.files f hf
+    cases hg : AL.get? f.2 (mmapKey q) with
+    | none =>
+      unfold cellVal cellGet
+      rw [AL.getD_eq, AL.get?_of_mem _ hdisk.names f.1 f.2 hf, Option.getD_some, hg]; rfl
+    | some vt =>
+      have hmem := AL.mem_of_get? _ _ _ hg
+      obtain ⟨q', hq', hk, hpp⟩ := hst.2 _ hmem
+      have hmet : q.metric = q'.metric := by have := congrArg Key.metric hk; simpa [mmapKey] using this
+      have hty := (hPS.consistent q hq q' hq' hmet).1
+      have hpre0 : filePrefix q0 = q.typ := by
+        rw [← hpp]; unfold filePrefix; rw [hty, if_neg hng]
+      rw [hn, hpre0] at hnc ⊢
+      have hp' : pid ∉ pids := fun h => hnc (List.mem_map.mpr ⟨pid, h, rfl⟩)
+      rw [wrun_cell vo q.typ (mmapKey q) pid hpid evs (St.init p0) (inv_init vo p0) ⟨hp0, hp0⟩ hev hu,
+        nonlive_prefix q.typ hgq.typ pid pid hpid hpid, foldl_wOwn_nonlive]
+      show ((wUpds (wLog vo q.typ (mmapKey q) p0 p0 [] evs)).foldl (ownStep vo pid) _).1 = vo.zero
+      rw [foldl_ownStep_foreign vo pid _ pids hp' hinc]
+      rfl
+  · intro fn hfn hna
+    have : AL.get? (wrun vo (St.init p0) evs).disk fn = none := (AL.get?_eq_none_iff _ _).mpr hna
+    unfold cellVal cellGet
+    rw [AL.getD_eq, this]; rfl
+
+open PromVerif.Model.Values in
+/-- **collected_sum_is_all_increments** (`_partial`, as above): the value the spec — hence, by `collect_workers_partial`,
+    the collector — assigns to the series `(sample name, labels)` of a counter / summary / histogram `_sum` value
+    object `q` is the sum of all increments ever issued to it, over all worker generations and identities. -/
+theorem collected_sum_is_all_increments_partial (vo : VOps V) (bo : BOps B)
+    (hcomm : ∀ a b, vo.add a b = vo.add b a)
+    (hassoc : ∀ a b c, vo.add (vo.add a b) c = vo.add a (vo.add b c)) (hzero : ∀ a, vo.add vo.zero a = a)
+    (PS : List Params) (hPS : GoodPS bo PS) (p0 : Str) (hp0 : '_' ∉ p0) (evs : List (Ev V)) (hev : evsIdOK evs)
+    (hkn : ∀ e ∈ evs, evKnown PS e) (hu : WUniq vo (St.init p0) evs)
+    (q : Params) (hq : q ∈ PS) (hng : q.typ ≠ gaugeType)
+    (hhelp : ∀ q' ∈ PS, q'.metric = q.metric → (mmapKey q').name = (mmapKey q).name →
+      (mmapKey q').labels = (mmapKey q).labels → mmapKey q' = mmapKey q)
+    (pids : List Str) (hnd : pids.Nodup) (hpids : ∀ p ∈ pids, '_' ∉ p)
+    (hinc : ∀ u ∈ wUpds (wLog vo q.typ (mmapKey q) p0 p0 [] evs), ∃ r a, u = Upd.inc r a ∧ r ∈ pids) (r : V)
+    (hr : sumValue vo (contribs (sfiles (wrun vo (St.init p0) evs).disk) q.metric)
+      ((mmapKey q).name, (mmapKey q).labels) = some r) :
+    r = incTotal vo (wUpds (wLog vo q.typ (mmapKey q) p0 p0 [] evs)) := by
+  have hsum := worker_sums_partial vo bo hcomm hassoc hzero PS hPS p0 hp0 evs hev hkn hu q hq hng
+    (fun key => decide (plainKey (⟨[], [], [], key, vo.zero, vo.zero⟩ : Contrib V) = ((mmapKey q).name, (mmapKey q).labels))
+      && decide (key.metric = q.metric))
+    (by simp [plainKey, mmapKey])
+    (by
+      intro q' hq' hs
+      simp only [plainKey, Bool.and_eq_true, decide_eq_true_eq, Prod.mk.injEq] at hs
+      exact hhelp q' hq' hs.2 hs.1.1 hs.1.2)
+    pids hnd hpids hinc
+  rw [← hsum]
+  unfold sumValue valuesFor contribs at hr
+  rw [List.filter_filter] at hr
+  have hl : ((allContribs (sfiles (wrun vo (St.init p0) evs).disk)).filter (fun a =>
+        decide (plainKey a = ((mmapKey q).name, (mmapKey q).labels)) && decide (a.key.metric = q.metric))).map (·.value)
+      = ((allContribs (sfiles (wrun vo (St.init p0) evs).disk)).filter (fun c =>
+        decide (plainKey (⟨[], [], [], c.key, vo.zero, vo.zero⟩ : Contrib V) = ((mmapKey q).name, (mmapKey q).labels))
+          && decide (c.key.metric = q.metric))).map (·.value) := rfl
+  rw [hl] at hr
+  cases hv : ((allContribs (sfiles (wrun vo (St.init p0) evs).disk)).filter (fun c =>
+      decide (plainKey (⟨[], [], [], c.key, vo.zero, vo.zero⟩ : Contrib V) = ((mmapKey q).name, (mmapKey q).labels))
+        && decide (c.key.metric = q.metric))).map (·.value) with
+  | nil => rw [hv] at hr; cases hr
+  | cons v vs => rw [hv] at hr; exact (Option.some.inj hr).symm
+
 /-! ### non-vacuity, and the counter-example behind `no_pid_label` -/
 
 /-- `Int` values (a commutative monoid with a strict order), natural-number bounds read from decimal digits and rendered in unary (injective, structurally recursive) -/
@@ -416,6 +662,71 @@ example : ∀ a b c : Int, intV.lt a b = true → intV.lt b c = true → intV.lt
   intro a b c h1 h2
   simp only [intV, decide_eq_true_eq] at *
   omega
+
+/-! a world history satisfying every hypothesis of `collect_workers_partial` / `worker_sums_partial` -/
+section WorldDemo
+open PromVerif.Model.Values
+
+def wC : Params := ⟨"counter".toList, "c".toList, "c_total".toList, ["l".toList], ["x".toList], "counts".toList, []⟩
+def wL : Params := ⟨"gauge".toList, "gl".toList, "gl".toList, [], [], "live".toList, "livesum".toList⟩
+def wS : Params := ⟨"gauge".toList, "gs".toList, "gs".toList, [], [], "sum".toList, "sum".toList⟩
+
+/-- worker 1 (pid 5, changing identity to 6 and back), death of 5 with `mark_process_dead`, a new worker reusing pid 5 -/
+def demoWorld : List (Ev Int) :=
+  [.op (.construct wC), .op (.inc 0 2), .op (.construct wL), .op (.set 1 10 none), .op (.setPid "6".toList),
+   .op (.inc 0 4), .op (.setPid "5".toList), .op (.construct wS), .op (.set 2 20 none), .dead "5".toList,
+   .spawn "5".toList, .op (.construct wC), .op (.inc 0 3), .op (.construct wL), .op (.inc 1 1),
+   .op (.construct wS), .op (.inc 2 1)]
+
+theorem demoPS_good : GoodPS natB [wC, wL, wS] :=
+  ⟨by intro q hq
+      simp only [List.mem_cons, List.not_mem_nil, or_false] at hq
+      rcases hq with h | h | h <;> subst h <;> exact ⟨by decide, by decide⟩,
+   by decide, by decide, by decide⟩
+
+theorem demoWorld_ids : evsIdOK demoWorld := by
+  intro e he
+  simp only [demoWorld, List.mem_cons, List.not_mem_nil, or_false] at he
+  rcases he with h | h | h | h | h | h | h | h | h | h | h | h | h | h | h | h | h <;> subst h <;>
+    first | trivial | (show '_' ∉ _; decide)
+
+theorem demoWorld_known : ∀ e ∈ demoWorld, evKnown [wC, wL, wS] e := by
+  intro e he
+  simp only [demoWorld, List.mem_cons, List.not_mem_nil, or_false] at he
+  rcases he with h | h | h | h | h | h | h | h | h | h | h | h | h | h | h | h | h <;> subst h <;>
+    first | trivial | (show _ ∈ [wC, wL, wS]; decide)
+
+def wUniqB : St Int → List (Ev Int) → Bool
+  | _, [] => true
+  | st, e :: r => decide (((wstep intV st e).1.values.map (fun v => idOf v.params)).Nodup) && wUniqB (wstep intV st e).1 r
+
+theorem wUniqB_sound (evs : List (Ev Int)) (st : St Int) (h : wUniqB st evs = true) : WUniq intV st evs := by
+  induction evs generalizing st with
+  | nil => trivial
+  | cons e r ih =>
+    simp only [wUniqB, Bool.and_eq_true, decide_eq_true_eq] at h
+    exact ⟨h.1, ih _ h.2⟩
+
+theorem natB_fmt_inj : ∀ t t' b b', natB.parse t = some b → natB.parse t' = some b' → natB.fmt b = natB.fmt b' → b = b' := by
+  intro _ _ b b' _ _ h
+  have := congrArg List.length h
+  simpa [natB] using this
+
+/-- `collect_workers_partial` applies -/
+example := collect_workers_partial intV natB [wC, wL, wS] demoPS_good "5".toList (by decide) demoWorld demoWorld_ids
+  demoWorld_known (wUniqB_sound _ _ (by decide)) natB_fmt_inj
+
+/-- … and on this history the collector's counter series is 2 + 4 + 3 = 9 over the files `counter_5.db` (5) and
+    `counter_6.db` (4); the live gauge of the dead-and-reused pid restarted (1), the non-live one continued (21) -/
+example : value intV natB (sfiles (wrun intV (St.init "5".toList) demoWorld).disk) "c".toList
+    ("c_total".toList, [("l".toList, "x".toList)]) = some 9 := by decide
+example : value intV natB (sfiles (wrun intV (St.init "5".toList) demoWorld).disk) "gl".toList ("gl".toList, []) = some 1 := by
+  decide
+example : value intV natB (sfiles (wrun intV (St.init "5".toList) demoWorld).disk) "gs".toList ("gs".toList, []) = some 21 := by
+  decide
+example : incTotal intV (wUpds (wLog intV "counter".toList (mmapKey wC) "5".toList "5".toList [] demoWorld)) = 9 := by decide
+
+end WorldDemo
 
 /-- **the counter-example behind `no_pid_label`** (M exhibits the candidate finding): a gauge in mode `all` whose own
     label is NAMED `pid`, two children in one process: the collector reports the same series `g{pid="1"}` twice (the
